@@ -19,6 +19,8 @@ CLOSE_SITES = {
     'HostConnectionPool._replace': 'failed',         # the connection is defunct/closed already
     'HostConnectionPool.shutdown': 'shutdown',
     'HostConnectionPool._add_conn_if_under_max': 'new',
+    'HostConnection.__init__': 'new',               # the constructor failed: the pool was never visible, its connections carry no request
+    'HostConnectionPool.__init__': 'new',
     '_ReconnectionHandler.run': 'probe',
     '_HostReconnectionHandler.on_exception': 'other',
 }
